@@ -168,13 +168,25 @@ def aexpr(draw, depth):
     return draw(aexpr(0))
 
 
+@st.composite
+def mexpr(draw, depth):
+    lit_m = st.dictionaries(st.one_of(st.integers(-3, 40), st.sampled_from([16, 32, 48, 64, 208, 1024, 4294967296])), st.integers(-100, 100), max_size=9).map(
+        lambda d: lit("M", [[k, v] for k, v in d.items()]))
+    if depth <= 0:
+        return draw(st.one_of(st.just(var("M", "m0")), lit_m))
+    k = draw(st.integers(0, 2))
+    if k == 0:
+        return ["bin", "M", "+", draw(mexpr(depth - 1)), draw(mexpr(depth - 1))]
+    return draw(mexpr(0))
+
+
 def expr_of(T, depth, helpers=()):
-    return {"I": iexpr(depth, helpers), "F": fexpr(depth), "S": sexpr(depth), "A": aexpr(depth)}[T]
+    return {"I": iexpr(depth, helpers), "F": fexpr(depth), "S": sexpr(depth), "A": aexpr(depth), "M": mexpr(depth)}[T]
 
 
 ASSIGN_OPS = {"I": ["=", "+=", "-=", "*=", "/=", "%=", "&=", "|=", "^=", "<<=", ">>="], "F": ["=", "+=", "-=", "*=", "/="],
-              "S": ["=", "+="], "A": ["=", "+=", "-="]}
-ASSIGNABLE = {"I": ["i0", "i1", "i2"], "F": ["f0"], "S": ["s0"], "A": ["a0"]}
+              "S": ["=", "+="], "A": ["=", "+=", "-="], "M": ["+=", "+=", "="]}
+ASSIGNABLE = {"I": ["i0", "i1", "i2"], "F": ["f0"], "S": ["s0"], "A": ["a0"], "M": ["m0"]}
 
 
 @st.composite
@@ -182,7 +194,7 @@ def stmt(draw, depth, ctx):
     """ctx: dict(in_loop, in_switch, loopvars free list, helpers)"""
     k = draw(st.integers(0, 13))
     if k <= 3 or depth <= 0:
-        T = draw(st.sampled_from(["I", "I", "I", "F", "S", "A"]))
+        T = draw(st.sampled_from(["I", "I", "I", "F", "S", "A", "M"]))
         tk = draw(st.integers(0, 5))
         if tk == 0 and T == "I":
             target = ["elem", "a0", draw(rexpr())]
@@ -197,6 +209,8 @@ def stmt(draw, depth, ctx):
             e = draw(iexpr(1))           # float op= int: the promotion path
         else:
             e = draw(expr_of(T, min(depth, 2), ctx["helpers"]))
+        if T == "M" and op == "=":
+            e = ["bin", "M", "+", e, lit("M", [])]    # mappings are shared by reference: assign a fresh copy
         if T == "A" and op == "=":
             e = ["bin", "A", "+", e, lit("A", [])]    # arrays are shared by reference: keep the read-only inputs unaliased
         return ["assign", target, op, e]
@@ -502,7 +516,8 @@ class Render:
             else:
                 out += "  %s %s = %s;\n" % (ty(T), n, init)
         out += self.block(p["body"], 1)
-        out += "  return ({ %s, %s });\n}\n" % (", ".join(self.name(n) for _, n in LOCALS if n[0] not in "jq"), self.e(p["ret"]))
+        # lk(): every key of m0 looked up again by index (a key stored in the wrong bucket is listed but not found)
+        out += "  return ({ %s, lk(%s), %s });\n}\n" % (", ".join(self.name(n) for _, n in LOCALS if n[0] not in "jq"), self.name("m0"), self.e(p["ret"]))
         return out
 
 
@@ -526,7 +541,8 @@ VARIANTS = [("base", {}), ("literals", dict(inputs="literals")), ("macro", dict(
 def render_program(p):
     """three source files: run-time variants, inputs-as-literals, inputs-and-helpers-as-macros (a compile-time
     rejection such as 'division by constant zero' must not take the other spellings down with it)"""
-    head = ["// C03 generated program"]
+    head = ["// C03 generated program",
+            "mixed lk(mapping m) { mixed *k = keys(m); mixed *r = ({ }); int i; for (i = 0; i < sizeof(k); i++) r += ({ m[k[i]] }); return sort_array(r, 1); }"]
     for T, n in PARAMS:
         head.append("#define IN_%s %s" % (n.upper(), rlit(T, p["inputs"][n])))
     for T, n in LOCALS:
@@ -591,7 +607,7 @@ def reference(p):
         except refeval.Return as r:
             return ("val", refeval.canon(["early", r.v]))
         last = ref.ev(p["ret"], env)
-        return ("val", refeval.canon([env[n] for _, n in LOCALS if n[0] not in "jq"] + [last]))
+        return ("val", refeval.canon([env[n] for _, n in LOCALS if n[0] not in "jq"] + [sorted(env["m0"].values())] + [last]))
     except refeval.LpcError as e:
         return ("err", e.cls)
     except refeval.Unspecified as e:
